@@ -61,6 +61,9 @@ struct Ctx<'a> {
     /// contract of a loop that disappeared is dropped (`R1.droppedloop`)
     loop_sigs: Vec<(String, Vec<String>)>,
     pinned_loop_sigs: HashMap<String, Vec<String>>,
+    /// R1.renamedlocal: pinned binding names per fn, fns whose ghost text was renamed
+    pinned_locals: HashMap<String, Vec<String>>,
+    renamed_fns: Vec<String>,
     float: bool,
     macro_map: HashMap<String, String>,
     /// R9.method: method-call identifier renames (`x.extend(v)` -> `x.vx_extend(v)`), the target is a prelude stub
@@ -74,6 +77,11 @@ struct Ctx<'a> {
     forrange: bool,
     /// R10.foriter (rules.foriter: [keys]): any other `for` loop -> explicit iterator facade + while loop
     foriter: bool,
+    /// R10.foriter.snapshot (rules.foriter_snapshot: true): ghost snapshot of the facade iterator's item sequence
+    /// between its creation and the while loop (`let ghost vx_allK = vx_itK.all();`), so that a loop invariant can
+    /// relate the iterator at the loop head to the iterator that was created (needed for `iter_mut()`: the link
+    /// between the items' final values and the borrowed vector is a fact about the CREATED iterator)
+    foriter_snapshot: bool,
     for_seq: usize,
     /// R11.wildclosure (rules.wild_closure_args: true): a closure parameter written as the wildcard pattern `_`
     /// becomes the fresh, unused variable `_vx_wK` (Verus: "only variables are supported here, not general
@@ -121,6 +129,8 @@ impl<'a> Ctx<'a> {
             pinned_closure_sigs: HashMap::new(),
             loop_sigs: vec![],
             pinned_loop_sigs: HashMap::new(),
+            pinned_locals: HashMap::new(),
+            renamed_fns: vec![],
             float: false,
             macro_map: HashMap::new(),
             method_map: HashMap::new(),
@@ -128,6 +138,7 @@ impl<'a> Ctx<'a> {
             boolops_all: false,
             forrange: false,
             foriter: false,
+            foriter_snapshot: false,
             for_seq: 0,
             wild_closure: false,
             wild_seq: 0,
@@ -420,7 +431,11 @@ impl<'c, 'a, 'ast> Visit<'ast> for Rewriter<'c, 'a> {
             let (bs, be) = self.cx.range(e.body.span());
             let pat_t = self.cx.text(e.pat.span()).to_string();
             self.cx.push(fs, es, format!("{{ let mut vx_it{k} = vx_iter("), "R10.foriter");
-            self.cx.push(ee, bs, format!("); while vx_it{k}.vx_more() "), "R10.foriter.cond");
+            if self.cx.foriter_snapshot {
+                self.cx.push(ee, bs, format!("); let ghost vx_all{k} = vx_it{k}.all(); while vx_it{k}.vx_more() "), "R10.foriter.cond");
+            } else {
+                self.cx.push(ee, bs, format!("); while vx_it{k}.vx_more() "), "R10.foriter.cond");
+            }
             self.cx.push(bs + 1, bs + 1, format!(" let {pat_t} = vx_it{k}.vx_next();"), "R10.foriter.head");
             self.cx.push(be, be, " }", "R10.foriter.close");
             self.visit_expr(&e.expr);
@@ -914,6 +929,104 @@ fn param_pattern_edits(cx: &mut Ctx, sig: &syn::Signature, block: &syn::Block) {
     if !lets.is_empty() {
         cx.push(bs + 1, bs + 1, lets, "R13.parampat.let");
     }
+}
+
+/// names bound in a function, in source order: parameters first, then every `Pat::Ident` of the body
+/// (let bindings, match arms, closure and loop patterns)
+fn fn_locals(f: &FnInfo) -> Vec<String> {
+    struct L { names: Vec<String> }
+    impl<'ast> Visit<'ast> for L {
+        fn visit_pat_ident(&mut self, p: &'ast syn::PatIdent) {
+            self.names.push(p.ident.to_string());
+            visit::visit_pat_ident(self, p);
+        }
+        fn visit_item(&mut self, _i: &'ast syn::Item) {}
+    }
+    let mut l = L { names: vec![] };
+    if let Some(sig) = f.sig {
+        for a in sig.inputs.iter() {
+            l.visit_fn_arg(a);
+        }
+    }
+    if let Some(b) = f.block {
+        l.visit_block(b);
+    }
+    l.names
+}
+
+/// replace whole-word occurrences of identifiers (never inside a longer identifier, never after a `.`: field names stay)
+fn rename_idents(text: &str, map: &HashMap<String, String>) -> String {
+    let cs: Vec<char> = text.chars().collect();
+    let mut out = String::with_capacity(text.len());
+    let mut i = 0;
+    while i < cs.len() {
+        let c = cs[i];
+        if c.is_alphabetic() || c == '_' {
+            let st = i;
+            while i < cs.len() && (cs[i].is_alphanumeric() || cs[i] == '_') {
+                i += 1;
+            }
+            let w: String = cs[st..i].iter().collect();
+            let after_dot = st > 0 && cs[st - 1] == '.' && !(st > 1 && cs[st - 2] == '.');
+            match map.get(&w) {
+                Some(n) if !after_dot => out.push_str(n),
+                _ => out.push_str(&w),
+            }
+        } else {
+            out.push(c);
+            i += 1;
+        }
+    }
+    out
+}
+
+/// R1.renamedlocal: the ghost text of a contract names locals / parameters of the pinned function body; when the
+/// current body binds different names at the aligned positions (a rename), the ghost text follows the rename.
+/// Only ghost text changes and Verus re-checks it; functions touched are reported so that a failure there is not
+/// trusted without a failing input.
+fn renamed_contract(cx: &mut Ctx, f: &FnInfo, c: &Value) -> Option<Value> {
+    let pinned = cx.pinned_locals.get(&f.key)?.clone();
+    let cur = fn_locals(f);
+    if pinned == cur {
+        return None;
+    }
+    let mapping = align_sigs(&pinned, &cur);
+    let curset: HashSet<&String> = cur.iter().collect();
+    let mut map: HashMap<String, String> = HashMap::new();
+    let mut bad: HashSet<String> = HashSet::new();
+    for (i, m) in mapping.iter().enumerate() {
+        if let Some(j) = m {
+            let (a, b) = (&pinned[i], &cur[*j]);
+            if a != b && !curset.contains(a) {
+                match map.get(a) {
+                    Some(prev) if prev != b => { bad.insert(a.clone()); }
+                    _ => { map.insert(a.clone(), b.clone()); }
+                }
+            }
+        }
+    }
+    for b in bad { map.remove(&b); }
+    if map.is_empty() {
+        return None;
+    }
+    fn walk(v: &Value, map: &HashMap<String, String>, key: Option<&str>) -> Value {
+        match v {
+            Value::String(s) => {
+                // anchors are SOURCE text (already renamed in the current tree): rename them too so that they are found
+                let _ = key;
+                Value::String(rename_idents(s, map))
+            }
+            Value::Array(a) => Value::Array(a.iter().map(|x| walk(x, map, None)).collect()),
+            Value::Object(o) => Value::Object(o.iter().map(|(k, x)| (k.clone(), if k == "ret" || k == "pos" { x.clone() } else { walk(x, map, Some(k)) })).collect()),
+            other => other.clone(),
+        }
+    }
+    let (b0, _) = cx.range(f.span);
+    for _ in 0..map.len() {
+        cx.push(b0, b0, "", "R1.renamedlocal");
+    }
+    cx.renamed_fns.push(f.key.clone());
+    Some(walk(c, &map, None))
 }
 
 fn apply_contract(cx: &mut Ctx, f: &FnInfo, contract: Option<&Value>, mutself: bool) {
@@ -1506,6 +1619,7 @@ fn main() {
         .as_array()
         .map(|a| a.iter().filter_map(|v| v.as_str().map(String::from)).collect())
         .unwrap_or_default();
+    let foriter_snapshot = rules["foriter_snapshot"].as_bool().unwrap_or(false);
     let foriter: HashSet<String> = rules["foriter"]
         .as_array()
         .map(|a| a.iter().filter_map(|v| v.as_str().map(String::from)).collect())
@@ -1698,7 +1812,7 @@ fn main() {
                     cx.boolops_all = boolops.contains("*");
                     let b = boolops.contains(&lname);
                     cx.forrange = forrange.contains(&lname);
-                    cx.foriter = foriter.contains(&lname);
+                    cx.foriter = foriter.contains(&lname); cx.foriter_snapshot = foriter_snapshot;
                     let mut rw = Rewriter { cx: &mut cx, boolops: b, in_macro: false };
                     rw.visit_block(block);
                 }
@@ -1781,6 +1895,7 @@ fn main() {
                 continue;
             }
             let it = found[nth];
+            cx.pinned_locals = rules["pinned_locals"].as_object().map(|m| m.iter().map(|(k, v)| (k.clone(), v.as_array().map(|a| a.iter().filter_map(|x| x.as_str().map(String::from)).collect()).unwrap_or_default())).collect()).unwrap_or_default();
             cx.pinned_loop_sigs = rules["pinned_loop_sigs"].as_object().map(|m| m.iter().map(|(k, v)| (k.clone(), v.as_array().map(|a| a.iter().filter_map(|x| x.as_str().map(String::from)).collect()).unwrap_or_default())).collect()).unwrap_or_default();
             cx.pinned_closure_sigs = rules["pinned_closure_sigs"].as_object().map(|m| m.iter().map(|(k, v)| (k.clone(), v.as_array().map(|a| a.iter().filter_map(|x| x.as_str().map(String::from)).collect()).unwrap_or_default())).collect()).unwrap_or_default();
             cx.derive_keep = sel["derive_keep"].as_array().map(|a| a.iter().filter_map(|v| v.as_str().map(String::from)).collect());
@@ -1946,6 +2061,8 @@ fn main() {
                         param_pattern_edits(&mut cx, sig, block);
                     }
                 }
+                let renamed = c.and_then(|c0| renamed_contract(&mut cx, f, c0));
+                let c = if renamed.is_some() { renamed.as_ref() } else { c };
                 apply_contract(&mut cx, f, c, mutself.contains(&f.key));
                 if impl_trait_args.contains(&f.key) {
                     if let Some(sig) = f.sig {
@@ -1963,6 +2080,7 @@ fn main() {
                     "has_contract": c.is_some(),
                     "has_body": f.block.is_some(),
                     "in_trait_impl": f.in_trait_impl,
+                    "locals": fn_locals(f),
                     "closures": n_closures,
                     "closures_without_contract": n_closures_unspec,
                     "loops": n_loops,
@@ -2001,7 +2119,7 @@ fn main() {
                                     if let Some(k) = key {
                                         let b = boolops.contains(&k);
                                         cx.forrange = forrange.contains(&k);
-                                        cx.foriter = foriter.contains(&k);
+                                        cx.foriter = foriter.contains(&k); cx.foriter_snapshot = foriter_snapshot;
                                         let mut rw = Rewriter { cx: &mut cx, boolops: b, in_macro: false };
                                         rw.visit_impl_item_fn(f);
                                     }
@@ -2016,7 +2134,7 @@ fn main() {
                     syn::Item::Fn(f) => {
                         let b = boolops.contains(&f.sig.ident.to_string());
                         cx.forrange = forrange.contains(&f.sig.ident.to_string());
-                        cx.foriter = foriter.contains(&f.sig.ident.to_string());
+                        cx.foriter = foriter.contains(&f.sig.ident.to_string()); cx.foriter_snapshot = foriter_snapshot;
                         let mut rw = Rewriter { cx: &mut cx, boolops: b, in_macro: false };
                         rw.visit_item_fn(f);
                     }
@@ -2063,6 +2181,7 @@ fn main() {
                 "fns": fn_meta,
                 "anchor_lines": cx.anchor_lines.iter().map(|(k, a, l)| json!([k, a, l])).collect::<Vec<_>>(),
                 "closure_sigs": cx.closure_sigs.iter().map(|(k, v)| json!([k, v])).collect::<Vec<_>>(),
+                "renamed_fns": cx.renamed_fns.clone(),
                 "loop_sigs": cx.loop_sigs.iter().map(|(k, v)| json!([k, v])).collect::<Vec<_>>(),
             }));
         }
